@@ -288,7 +288,9 @@ RResult read_kind(const std::string& rk, const std::vector<std::uint8_t>& bytes,
         {
           nop::Deserializer<HR<nop::FdReader>> de{fds[0]};
           de.reader().chan = &chan;
+          nopv::short_read_fd() = fds[0];     // every read(2) on the pipe is a short one
           st = de.Read(&dest);
+          nopv::short_read_fd() = -1;
           // what the reader did not consume is still in the pipe
           std::uint8_t tmp[256];
           feeder.join();
